@@ -4,7 +4,7 @@
    one place where an absolute number enters) and the standard model's budget decision.
    Statements only; proofs are `exact` of lemmas in Proofs/ScaleProofs4.v. *)
 From Coq Require Import List Reals.
-From SSP Require Import Num Model.Eject Model.ScaleSpec Proofs.EjectProofs Proofs.ScaleProofs4.
+From SSP Require Import Num Model.Eject Model.Kicks Model.ScaleSpec Proofs.EjectProofs Proofs.ScaleProofs4 Proofs.ScaleProofs5.
 Import ListNotations.
 Local Open Scope R_scope.
 
@@ -51,3 +51,11 @@ Theorem C18_bh_post_homogeneous : forall J formed MN Msum ret_dyn Nmin kicked la
   scale_post lam (bh_post (O:=R_ops J) formed MN Msum ret_dyn Nmin kicked).
 Proof. exact bh_post_homogeneous. Qed.
 Print Assumptions C18_bh_post_homogeneous.
+
+(* natal kicks: the per-bin loop is homogeneous (retention fractions are functions of the bins' mean
+   masses, which do not change with scale); the 0.1-object skip threshold has to be scaled along *)
+Theorem C18_kicks_homogeneous : forall J lam c01 MN rets, 0 < lam ->
+  unbound_natal_kicks (O:=R_ops J) (lam * c01) (scale_bins lam MN) rets =
+  let '(l, e) := unbound_natal_kicks (O:=R_ops J) c01 MN rets in (scale_bins lam l, lam * e).
+Proof. exact kicks_homogeneous. Qed.
+Print Assumptions C18_kicks_homogeneous.
